@@ -402,14 +402,14 @@ def run(tier, seed, replay=None):
         cases = [("replay", l.strip()) for l in open(replay) if l.strip() and not l.startswith("#")]
     else:
         cases = [("corpus", c[0]) for c in load_corpus("C16") if c]
-        cases += gen_b64_cases(rng, 150 if q else 3000)
+        cases += gen_b64_cases(rng, 150 if q else 10000)
         cases += [("sha1", "sha1 " + hx(d)) for d in [b"", b"abc", b"a" * 55, b"a" * 56, b"a" * 63, b"a" * 64, b"a" * 65,
                                                       b"abcdbcdecdefdefgefghfghighijhijkijkljklmklmnlmnomnopnopq", b"x" * 200]
                   + [rbytes(rng, rng.randrange(0, 300)) for _ in range(10 if q else 300)]]
-        cases += gen_chunk_cases(rng, 500 if q else 20000, tier)
-        cases += gen_head_cases(rng, 600 if q else 20000, tier)
-        cases += gen_ws_cases(rng, 600 if q else 6000, tier)
-        cases += gen_send_cases(rng, 80 if q else 1500)
+        cases += gen_chunk_cases(rng, 500 if q else 60000, tier)
+        cases += gen_head_cases(rng, 600 if q else 60000, tier)
+        cases += gen_ws_cases(rng, 600 if q else 30000, tier)
+        cases += gen_send_cases(rng, 80 if q else 6000)
     lap("build done")
     lines = [c[1] for c in cases]
     # pause between two pieces of a stream written to the loopback socket (microseconds)
